@@ -76,6 +76,30 @@ fn has_key_scope(auth: &ast::Authorizer) -> bool {
 
 impl<'a> Run<'a> {
     pub fn check_c11(&mut self, biscuit: &Biscuit, token: usize, verifier: usize, spec: &VerifierSpec) {
+        // one more query: the product of the two most populated predicates, so that answers
+        // larger than the fact store (and than a small fact budget) are part of the outcome
+        let mut spec = spec.clone();
+        {
+            let mut count: std::collections::BTreeMap<(String, usize), usize> = Default::default();
+            let ghost_facts = self.slots[token].ghost.iter().flat_map(|g| g.ast.facts.iter());
+            for f in ghost_facts.chain(spec.authorizer.facts.iter()).filter(|f| !f.terms.is_empty()) {
+                *count.entry((f.name.clone(), f.terms.len())).or_insert(0) += 1;
+            }
+            let mut by: Vec<((String, usize), usize)> = count.into_iter().collect();
+            by.sort_by(|a, b| b.1.cmp(&a.1).then(a.0.cmp(&b.0)));
+            if let Some(((n1, a1), _)) = by.first().cloned() {
+                let (n2, a2) = by.get(1).map(|x| x.0.clone()).unwrap_or((n1.clone(), a1));
+                let v1: Vec<ast::Term> = (0..a1).map(|i| ast::Term::Var(format!("l{i}"))).collect();
+                let v2: Vec<ast::Term> = (0..a2).map(|i| ast::Term::Var(format!("r{i}"))).collect();
+                spec.queries.push(Rule {
+                    head: ast::Pred { name: "q".to_string(), terms: v1.iter().chain(v2.iter()).cloned().collect() },
+                    body: vec![ast::Pred { name: n1, terms: v1 }, ast::Pred { name: n2, terms: v2 }],
+                    exprs: vec![],
+                    scopes: vec![],
+                });
+            }
+        }
+        let spec = &spec;
         let mut seen: BTreeSet<String> = BTreeSet::new();
         let mut how: Vec<(String, String)> = Vec::new();
         let n = self.mon.hash_keys.max(2);
